@@ -98,7 +98,7 @@ impl RdfPlanner {
             LogicalOperator::LeftJoin(join) => self.plan_left_join(join),
             LogicalOperator::AntiJoin(join) => self.plan_anti_join(join),
             LogicalOperator::Union(union) => self.plan_union(union),
-            LogicalOperator::Distinct(distinct) => self.plan_operator(&distinct.input),
+            LogicalOperator::Distinct(distinct) => self.plan_distinct(distinct),
             LogicalOperator::InsertTriple(insert) => self.plan_insert_triple(insert),
             LogicalOperator::DeleteTriple(delete) => self.plan_delete_triple(delete),
             LogicalOperator::Modify(modify) => self.plan_modify(modify),
@@ -556,6 +556,18 @@ impl RdfPlanner {
         } else {
             Ok((join_op, output_columns))
         }
+    }
+
+    /// Plans a DISTINCT operator (for SPARQL SELECT DISTINCT).
+    fn plan_distinct(
+        &self,
+        distinct: &crate::query::plan::DistinctOp,
+    ) -> Result<(Box<dyn Operator>, Vec<String>)> {
+        use grafeo_core::execution::operators::DistinctOperator;
+
+        let (input_op, columns) = self.plan_operator(&distinct.input)?;
+        let schema = derive_rdf_schema(&columns);
+        Ok((Box::new(DistinctOperator::new(input_op, schema)), columns))
     }
 
     /// Plans a LEFT JOIN operator (for SPARQL OPTIONAL).
